@@ -435,11 +435,22 @@ __CPROVER_ensures(!__CPROVER_old(xv_close_unflushed) ==> !xv_close_unflushed)
 /* The xrelay_* functions are REPLACED by the contracts above.  rserver_num_relays (a walk over the list of live relays) is
  * cut by an ASSUMED contract returning any count: both sides of every `== MAX_RELAYS` test are explored, the list walk
  * itself is not verified (it would need an inductive list predicate). */
+#ifdef XV_RS_TERMINATE_JOB
+/* (job relay.rserver_terminate_relay) the count is that of the OTHER relays (ghost, any value) plus the terminating one for as long as it
+ * is linked into the list: the administrative limit must be tested on the list as it was BEFORE the relay is unlinked */
+size_t xv_rs_others; struct xrelay *xv_rs_term;
+static size_t rserver_num_relays(struct rserver *server)
+__CPROVER_requires(__CPROVER_rw_ok(xv_rs_term, sizeof(struct xrelay)) && __CPROVER_r_ok(xv_rs_term->entry.le_prev, sizeof(struct xrelay *)) && xv_rs_others < 100000)
+__CPROVER_assigns()
+__CPROVER_ensures(__CPROVER_return_value == xv_rs_others + (*xv_rs_term->entry.le_prev == xv_rs_term ? 1 : 0))
+;
+#else
 static size_t rserver_num_relays(struct rserver *server)
 __CPROVER_requires(1)
 __CPROVER_assigns()
 __CPROVER_ensures(1)
 ;
+#endif
 #define RS(arg) ((struct rserver *)(arg))
 #define RS_HEAD(sv) ((sv)->relays.lh_first)
 /* the listening socket is entry XV_SRV of the socket table: open, non-blocking; the two slots for the connections to come are free */
@@ -497,6 +508,10 @@ __CPROVER_assigns(xv_errno, xv_aw_calls, __CPROVER_object_whole(&xv_legs), xv_cl
                   *relay->entry.le_prev, XR_EV_ASSIGNS(relay), relay->cond0, relay->cond1)
 __CPROVER_assigns(relay->entry.le_next != NULL: relay->entry.le_next->entry.le_prev)
 __CPROVER_frees(relay)
+#ifdef XV_RS_TERMINATE_JOB
+/* PO[C20] rserver_terminate_relay.full_relay_accepts_again: when the relay was at its administrative limit (MAX_RELAYS live relays, the terminating one included) the listening socket awaits ACCEPTABLE again afterwards - otherwise a relay that has been full once never serves a new client; below the limit what the listening socket awaits is left alone */
+__CPROVER_ensures(xv_rs_others + 1 == MAX_RELAYS ? (xv_legs[XV_SRV].cond & XCM_SO_ACCEPTABLE) != 0 : xv_legs[XV_SRV].cond == __CPROVER_old(xv_legs[XV_SRV].cond))
+#endif
 /* PO[C20] rserver_terminate_relay.unlinked_and_released: the relay is taken out of the list (its neighbours are linked to each other) and handed to xrelay_destroy (both its connections closed; that it is freed is xrelay_destroy.released); nothing else is closed */
 __CPROVER_ensures(*__CPROVER_old(relay->entry.le_prev) == __CPROVER_old(relay->entry.le_next) && \
                   (__CPROVER_old(relay->entry.le_next) != NULL ==> __CPROVER_old(relay->entry.le_next)->entry.le_prev == __CPROVER_old(relay->entry.le_prev)) && \
